@@ -1,9 +1,27 @@
-(* props/C17.v - property C17: polynomials have value semantics (stored leading zeros never change results).
-   Only statements, each closed by `exact`, each followed by Print Assumptions. *)
+(* props/C17.v - property C17: polynomials have value semantics - stored leading zeros never change results.
+   Only statements, each closed by `exact`, each followed by Print Assumptions.
+
+   Reading guide (see also props/C07.v).  A raw coefficient list `l` (what `Polynomial.coefficients` stores; owned and
+   borrowed storage are the same list in the model) denotes the polynomial `map den l`; `same fk ok den a a'` says that
+   a and a' are well-formed raw lists denoting the SAME polynomial - in particular `a = l ++ repeat 0 k` and `a' = l`
+   (C17_same_app_zeros).  Each C17_vs_* theorem says that an operation called on `same` arguments returns `same`
+   results (equal values / booleans / encodings where the result is not a polynomial) and that neither call panics
+   (`Some _`, or a plain value for functions that cannot panic).
+   The theorems are about the code of the CURRENT tree.  Four operations violated the property on the originally pinned
+   tree (slow_square, square, truncate, Hash) and were repaired in /repo by commit 0fd3b2b; the refutations of their old
+   models (`_v0`) are kept at the end as clearly labelled HISTORICAL lemmas. *)
 From Coq Require Import ZArith Bool List.
-From TF Require Import Word FieldOps FieldTheory PolyGen PolyCore PolySpec PolyCoreProofs.
+From TF Require Import Word BFieldGen BField FieldOps FieldTheory PolyGen PolyCore PolySpec PolyCoreProofs PolyC07Wrap PolyValueSem.
+From TF Require Import BFieldProofs BFieldOk Ntt.
 Import ListNotations.
 Open Scope Z_scope.
+
+(* appending zero coefficients above the leading term does not change the denoted polynomial *)
+Theorem C17_same_app_zeros :
+  forall {F K} (o : fops F) (fk : fieldK K) (ok : F -> Prop) (den : F -> K), field_ok o fk ok den ->
+  forall l k, Forall ok l -> same fk ok den (l ++ repeat (fzero o) k) l.
+Proof. exact @same_app_zeros. Qed.
+Print Assumptions C17_same_app_zeros.
 
 (* `==` decides equality of the denoted polynomials, whatever the storage *)
 Theorem C17_eq_iff_denote :
@@ -11,3 +29,248 @@ Theorem C17_eq_iff_denote :
   forall a b, Forall ok a -> Forall ok b -> (poly_eqb o a b = true <-> peq fk (map den a) (map den b)).
 Proof. exact @eq_iff_denote. Qed.
 Print Assumptions C17_eq_iff_denote.
+
+(* equal polynomials feed the same data to the hasher *)
+Theorem C17_hash_respects_eq :
+  forall {F K} (o : fops F) (fk : fieldK K) (ok : F -> Prop) (den : F -> K), field_ok o fk ok den ->
+  forall a b, Forall ok a -> Forall ok b -> poly_eqb o a b = true -> poly_hash_feed o a = poly_hash_feed o b.
+Proof. exact @hash_respects_eq. Qed.
+Print Assumptions C17_hash_respects_eq.
+
+(* leading_coefficient: None exactly for the zero polynomial, otherwise the non-zero leading coefficient; never panics *)
+Theorem C17_leading_coeff_nonzero :
+  forall {F K} (o : fops F) (fk : fieldK K) (ok : F -> Prop) (den : F -> K), field_ok o fk ok den ->
+  forall l, Forall ok l ->
+  (pzero fk (map den l) -> poly_leading_coefficient o l = Some None) /\
+  (~ pzero fk (map den l) ->
+   exists c, poly_leading_coefficient o l = Some (Some c) /\ ok c /\ den c = plead fk (map den l) /\ den c <> k0 fk).
+Proof. exact @leading_coeff_nonzero. Qed.
+Print Assumptions C17_leading_coeff_nonzero.
+
+(* coefficients() / into_coefficients(): a function of the denoted polynomial, never ending in a zero *)
+Theorem C17_coefficients_canonical :
+  forall {F K} (o : fops F) (fk : fieldK K) (ok : F -> Prop) (den : F -> K), field_ok o fk ok den ->
+  forall a b, Forall ok a -> Forall ok b -> peq fk (map den a) (map den b) -> poly_coefficients o a = poly_coefficients o b.
+Proof. exact @coefficients_canonical. Qed.
+Print Assumptions C17_coefficients_canonical.
+
+Theorem C17_coefficients_last_nonzero :
+  forall {F K} (o : fops F) (fk : fieldK K) (ok : F -> Prop) (den : F -> K), field_ok o fk ok den ->
+  forall l, Forall ok l -> forall c, last (poly_coefficients o l) c = c \/ den (last (poly_coefficients o l) c) <> k0 fk.
+Proof. exact @coefficients_last_nonzero. Qed.
+Print Assumptions C17_coefficients_last_nonzero.
+
+(* the encoding depends only on the denoted polynomial; in particular appended zeros do not alter it *)
+Theorem C17_encode_normalised :
+  forall {F K} (o : fops F) (fk : fieldK K) (ok : F -> Prop) (den : F -> K), field_ok o fk ok den ->
+  forall enc a b, Forall ok a -> Forall ok b -> peq fk (map den a) (map den b) -> poly_encode o enc a = poly_encode o enc b.
+Proof. exact @encode_normalised. Qed.
+Print Assumptions C17_encode_normalised.
+
+Theorem C17_encode_app_zeros :
+  forall {F K} (o : fops F) (fk : fieldK K) (ok : F -> Prop) (den : F -> K), field_ok o fk ok den ->
+  forall enc l k, poly_encode o enc (l ++ repeat (fzero o) k) = poly_encode o enc l.
+Proof. exact @encode_app_zeros. Qed.
+Print Assumptions C17_encode_app_zeros.
+
+(* ---- accessors and predicates *)
+Theorem C17_vs_degree :
+  forall {F K} (o : fops F) (fk : fieldK K) (ok : F -> Prop) (den : F -> K), field_ok o fk ok den ->
+  forall a a', same fk ok den a a' -> poly_degree o a = poly_degree o a'.
+Proof. exact @vs_degree. Qed.
+Print Assumptions C17_vs_degree.
+
+Theorem C17_vs_leading_coefficient :
+  forall {F K} (o : fops F) (fk : fieldK K) (ok : F -> Prop) (den : F -> K), field_ok o fk ok den ->
+  forall a a', same fk ok den a a' ->
+  poly_leading_coefficient o a = poly_leading_coefficient o a' /\ exists r, poly_leading_coefficient o a = Some r.
+Proof. exact @vs_leading_coefficient. Qed.
+Print Assumptions C17_vs_leading_coefficient.
+
+Theorem C17_vs_eq :
+  forall {F K} (o : fops F) (fk : fieldK K) (ok : F -> Prop) (den : F -> K), field_ok o fk ok den ->
+  forall a a' b b', same fk ok den a a' -> same fk ok den b b' -> poly_eqb o a b = poly_eqb o a' b'.
+Proof. exact @vs_eqb. Qed.
+Print Assumptions C17_vs_eq.
+
+Theorem C17_vs_is_zero :
+  forall {F K} (o : fops F) (fk : fieldK K) (ok : F -> Prop) (den : F -> K), field_ok o fk ok den ->
+  forall a a', same fk ok den a a' -> poly_is_zero o a = poly_is_zero o a'.
+Proof. exact @vs_is_zero. Qed.
+Print Assumptions C17_vs_is_zero.
+
+Theorem C17_vs_is_one :
+  forall {F K} (o : fops F) (fk : fieldK K) (ok : F -> Prop) (den : F -> K), field_ok o fk ok den ->
+  forall a a', same fk ok den a a' -> poly_is_one o a = poly_is_one o a' /\ exists b, poly_is_one o a = Some b.
+Proof. exact @vs_is_one. Qed.
+Print Assumptions C17_vs_is_one.
+
+Theorem C17_vs_evaluate :
+  forall {F K} (o : fops F) (fk : fieldK K) (ok : F -> Prop) (den : F -> K), field_ok o fk ok den ->
+  forall a a' x, same fk ok den a a' -> ok x -> poly_evaluate o a x = poly_evaluate o a' x.
+Proof. exact @vs_evaluate. Qed.
+Print Assumptions C17_vs_evaluate.
+
+(* ---- ring operations, every argument position *)
+Theorem C17_vs_add :
+  forall {F K} (o : fops F) (fk : fieldK K) (ok : F -> Prop) (den : F -> K), field_ok o fk ok den ->
+  forall a a' b b', same fk ok den a a' -> same fk ok den b b' -> same fk ok den (poly_add o a b) (poly_add o a' b').
+Proof. exact @vs_add. Qed.
+Print Assumptions C17_vs_add.
+
+Theorem C17_vs_sub :
+  forall {F K} (o : fops F) (fk : fieldK K) (ok : F -> Prop) (den : F -> K), field_ok o fk ok den ->
+  forall a a' b b', same fk ok den a a' -> same fk ok den b b' -> same fk ok den (poly_sub o a b) (poly_sub o a' b').
+Proof. exact @vs_sub. Qed.
+Print Assumptions C17_vs_sub.
+
+Theorem C17_vs_neg :
+  forall {F K} (o : fops F) (fk : fieldK K) (ok : F -> Prop) (den : F -> K), field_ok o fk ok den ->
+  forall a a', same fk ok den a a' -> same fk ok den (poly_neg o a) (poly_neg o a').
+Proof. exact @vs_neg. Qed.
+Print Assumptions C17_vs_neg.
+
+Theorem C17_vs_scalar_mul :
+  forall {F K} (o : fops F) (fk : fieldK K) (ok : F -> Prop) (den : F -> K), field_ok o fk ok den ->
+  forall a a' s, same fk ok den a a' -> ok s -> same fk ok den (poly_scalar_mul o a s) (poly_scalar_mul o a' s).
+Proof. exact @vs_scalar_mul. Qed.
+Print Assumptions C17_vs_scalar_mul.
+
+Theorem C17_vs_scale :
+  forall {F K} (o : fops F) (fk : fieldK K) (ok : F -> Prop) (den : F -> K), field_ok o fk ok den ->
+  forall a a' s, same fk ok den a a' -> ok s -> same fk ok den (poly_scale o a s) (poly_scale o a' s).
+Proof. exact @vs_scale. Qed.
+Print Assumptions C17_vs_scale.
+
+Theorem C17_vs_shift_coefficients :
+  forall {F K} (o : fops F) (fk : fieldK K) (ok : F -> Prop) (den : F -> K), field_ok o fk ok den ->
+  forall a a' n, same fk ok den a a' -> same fk ok den (poly_shift_coefficients o a n) (poly_shift_coefficients o a' n).
+Proof. exact @vs_shift. Qed.
+Print Assumptions C17_vs_shift_coefficients.
+
+Theorem C17_vs_formal_derivative :
+  forall {F K} (o : fops F) (fk : fieldK K) (ok : F -> Prop) (den : F -> K), field_ok o fk ok den ->
+  forall a a', same fk ok den a a' -> zlen a <= 2 ^ 64 -> zlen a' <= 2 ^ 64 ->
+  same fk ok den (poly_formal_derivative o a) (poly_formal_derivative o a').
+Proof. exact @vs_formal_derivative. Qed.
+Print Assumptions C17_vs_formal_derivative.
+
+Theorem C17_vs_mod_x_to_the_n :
+  forall {F K} (fk : fieldK K) (ok : F -> Prop) (den : F -> K),
+  forall a a' n, same fk ok den a a' -> 0 <= n ->
+  peq fk (map den (poly_mod_x_to_the_n a n)) (map den (poly_mod_x_to_the_n a' n)).
+Proof. exact @vs_mod_x_to_the_n. Qed.
+Print Assumptions C17_vs_mod_x_to_the_n.
+
+(* truncate (current code): identical results; and what it returns *)
+Theorem C17_vs_truncate :
+  forall {F K} (o : fops F) (fk : fieldK K) (ok : F -> Prop) (den : F -> K), field_ok o fk ok den ->
+  forall a a' k, same fk ok den a a' -> poly_truncate o a k = poly_truncate o a' k.
+Proof. exact @vs_truncate. Qed.
+Print Assumptions C17_vs_truncate.
+
+Theorem C17_truncate_spec :
+  forall {F K} (o : fops F) (fk : fieldK K) (ok : F -> Prop) (den : F -> K), field_ok o fk ok den ->
+  forall l k, Forall ok l -> 0 <= k -> k + 1 < 2 ^ 64 ->
+  exists r, poly_truncate o l k = Some r /\ Forall ok r /\
+    forall i, coeff fk (map den r) i = coeff fk (map den l) (Z.to_nat (Z.max 0 (pdeg fk (map den l) - k)) + i).
+Proof. exact @truncate_v1_spec. Qed.
+Print Assumptions C17_truncate_spec.
+
+(* ---- products *)
+Theorem C17_vs_naive_multiply :
+  forall {F K} (o : fops F) (fk : fieldK K) (ok : F -> Prop) (den : F -> K), field_ok o fk ok den ->
+  forall a a' b b', same fk ok den a a' -> same fk ok den b b' ->
+  same fk ok den (poly_naive_multiply o a b) (poly_naive_multiply o a' b').
+Proof. exact @vs_naive_multiply. Qed.
+Print Assumptions C17_vs_naive_multiply.
+
+Theorem C17_vs_slow_square :
+  forall {F K} (o : fops F) (fk : fieldK K) (ok : F -> Prop) (den : F -> K), field_ok o fk ok den ->
+  forall a a', same fk ok den a a' ->
+  exists r r', poly_slow_square o a = Some r /\ poly_slow_square o a' = Some r' /\ same fk ok den r r'.
+Proof. exact @vs_slow_square. Qed.
+Print Assumptions C17_vs_slow_square.
+
+Theorem C17_vs_pow :
+  forall {F K} (o : fops F) (fk : fieldK K) (ok : F -> Prop) (den : F -> K), field_ok o fk ok den ->
+  forall a a' e, same fk ok den a a' -> 0 <= e ->
+  exists r r', poly_pow o a e = Some r /\ poly_pow o a' e = Some r' /\ same fk ok den r r'.
+Proof. exact @vs_pow. Qed.
+Print Assumptions C17_vs_pow.
+
+Theorem C17_vs_multiply :
+  forall {F K} (o : fops F) (fk : fieldK K) (ok : F -> Prop) (den : F -> K), field_ok o fk ok den ->
+  forall ntt intt lmax wr, ntt_ok fk ok den ntt lmax wr -> intt_ok fk ok den intt lmax wr -> roots_ok fk lmax wr ->
+  forall a a' b b', same fk ok den a a' -> same fk ok den b b' ->
+  zlen a + zlen b <= 2 ^ Z.of_nat lmax -> zlen a' + zlen b' <= 2 ^ Z.of_nat lmax ->
+  exists r r', poly_multiply o ntt intt a b = Some r /\ poly_multiply o ntt intt a' b' = Some r' /\ same fk ok den r r'.
+Proof. exact @vs_multiply. Qed.
+Print Assumptions C17_vs_multiply.
+
+Theorem C17_vs_square :
+  forall {F K} (o : fops F) (fk : fieldK K) (ok : F -> Prop) (den : F -> K), field_ok o fk ok den ->
+  forall ntt intt lmax wr, ntt_ok fk ok den ntt lmax wr -> intt_ok fk ok den intt lmax wr -> roots_ok fk lmax wr ->
+  forall a a', same fk ok den a a' -> 2 * zlen a <= 2 ^ Z.of_nat lmax -> 2 * zlen a' <= 2 ^ Z.of_nat lmax ->
+  exists r r', poly_square o ntt intt a = Some r /\ poly_square o ntt intt a' = Some r' /\ same fk ok den r r'.
+Proof. exact @vs_square. Qed.
+Print Assumptions C17_vs_square.
+
+Theorem C17_vs_batch_multiply :
+  forall {F K} (o : fops F) (fk : fieldK K) (ok : F -> Prop) (den : F -> K), field_ok o fk ok den ->
+  forall ntt intt lmax wr, ntt_ok fk ok den ntt lmax wr -> intt_ok fk ok den intt lmax wr -> roots_ok fk lmax wr ->
+  forall ps ps', Forall2 (same fk ok den) ps ps' ->
+  total_len ps <= 2 ^ Z.of_nat lmax -> total_len ps' <= 2 ^ Z.of_nat lmax ->
+  exists r r', poly_batch_multiply o ntt intt ps = Some r /\ poly_batch_multiply o ntt intt ps' = Some r' /\
+               same fk ok den r r'.
+Proof. exact @vs_batch_multiply. Qed.
+Print Assumptions C17_vs_batch_multiply.
+
+Theorem C17_vs_par_batch_multiply :
+  forall {F K} (o : fops F) (fk : fieldK K) (ok : F -> Prop) (den : F -> K), field_ok o fk ok den ->
+  forall ntt intt lmax wr, ntt_ok fk ok den ntt lmax wr -> intt_ok fk ok den intt lmax wr -> roots_ok fk lmax wr ->
+  forall nt nt' ps ps', 1 <= nt -> 1 <= nt' -> Forall2 (same fk ok den) ps ps' ->
+  total_len ps <= 2 ^ Z.of_nat lmax -> total_len ps' <= 2 ^ Z.of_nat lmax ->
+  exists r r', poly_par_batch_multiply o ntt intt nt ps = Some r /\ poly_par_batch_multiply o ntt intt nt' ps' = Some r' /\
+               same fk ok den r r'.
+Proof. exact @vs_par_batch_multiply. Qed.
+Print Assumptions C17_vs_par_batch_multiply.
+
+(* the hypotheses are satisfiable *)
+Example C17_bfe_instance : field_ok bfe_ops fp_field canon bden.
+Proof. exact bfe_field_ok. Qed.
+Example C17_witnesses_well_formed : Forall canon w_one_stored /\ Forall canon w_lin_stored /\ Forall canon w_lin.
+Proof. exact okb_witnesses. Qed.
+
+(* ================= HISTORICAL (code BEFORE the repair commit 0fd3b2b; `_v0` models) =================
+   The four operations that violated C17 on the originally pinned tree, each with its concrete witness, and what the
+   repaired code (`_v1`, the code the theorems above are about) returns on the same witness. *)
+Theorem C17_historical_slow_square_v0_refuted :
+  exists l, poly_eqb bfe_ops l [bfe_one] = true /\ poly_slow_square_v0 bfe_ops [bfe_one] = Some [bfe_one] /\
+            poly_slow_square_v0 bfe_ops l = None.
+Proof. exact slow_square_v0_refuted. Qed.
+Print Assumptions C17_historical_slow_square_v0_refuted.
+
+Theorem C17_historical_square_v0_refuted :
+  exists l, poly_eqb bfe_ops l [bfe_one] = true /\ poly_square_v0 bfe_ops ntt_b intt_b [bfe_one] = Some [bfe_one] /\
+            poly_square_v0 bfe_ops ntt_b intt_b l = None.
+Proof. exact square_v0_refuted. Qed.
+Print Assumptions C17_historical_square_v0_refuted.
+
+Theorem C17_historical_truncate_v0_refuted :
+  exists l l' r r', poly_eqb bfe_ops l l' = true /\ poly_truncate_v0 bfe_ops l 0 = Some r /\
+                    poly_truncate_v0 bfe_ops l' 0 = Some r' /\ poly_eqb bfe_ops r r' = false.
+Proof. exact truncate_v0_refuted. Qed.
+Print Assumptions C17_historical_truncate_v0_refuted.
+
+Theorem C17_historical_hash_v0_refuted :
+  exists a b, poly_eqb bfe_ops a b = true /\ poly_hash_feed_v0 bfe_ops a <> poly_hash_feed_v0 bfe_ops b.
+Proof. exact hash_v0_refuted. Qed.
+Print Assumptions C17_historical_hash_v0_refuted.
+
+Theorem C17_repaired_on_witnesses :
+  poly_slow_square bfe_ops w_one_stored = Some [bfe_one] /\
+  poly_square bfe_ops ntt_b intt_b w_one_stored = Some [bfe_one] /\
+  poly_truncate bfe_ops w_lin_stored 0 = poly_truncate bfe_ops w_lin 0.
+Proof. exact (conj slow_square_v1_on_witness (conj square_v1_on_witness truncate_v1_on_witness)). Qed.
+Print Assumptions C17_repaired_on_witnesses.
